@@ -130,20 +130,24 @@ Scan(s, i, n) == IF i > Len(s) THEN n
 \* astutils.py:429 lineno = node.lineno (start of the token on this Python), then the loop; model.py:170
 DocstringLine(l) == Scan(Prefix(l), 1, QuoteLine(l))
 
-\* napoleon rewrites google / numpy sections into reST before parsing; the rewritten text has the same lines
-\* 0..8 and then moves: "Note:" -> ".. note::" + blank line (google: +1), "Note/----" -> ".. note::" + blank (numpy: 0),
-\* "Args:" header dropped (google param: +1 - 1 = 0), "Parameters/----------" dropped and "a / desc" joined
-\* (numpy param: 0 - 2 - 1 = -3).  Environment fact of this template, bound by the conformance run.
-ConvShift(l) == CASE l.fmt = "google" /\ l.pos = "field" -> 1
-                  [] l.fmt = "numpy"  /\ l.prob = "param" -> 0 - 3
-                  [] OTHER -> 0
+\* napoleon rewrites google / numpy sections into reST before parsing.  For this template the rewritten text keeps
+\* lines 0..8 and then:   google "Note:/b1/b2"      -> ".. note::" / "" / b1 / b2        (body moves down by 1)
+\*                        numpy  "Note/----/b1/b2"  -> ".. note::" / "" / b1 / b2        (body stays)
+\*                        google "Args:/a/nosuch"   -> ":param a:" / ":param nosuch:"    (header dropped: +1 - 1 = 0)
+\*                        numpy  "Parameters/----/a/desc/nosuch/text" -> ":param a: desc" / ":param nosuch: text"  (0 - 2 - 1 = -3)
+\* Conv(l) = [first, at] in the REWRITTEN text: first line of the innermost block holding the problem (for the Note
+\* section: the paragraph inside the directive), and the line of the problem.  Environment fact, bound by conformance.
+RstFamily(l) == l.fmt \in {"restructuredtext", "google", "numpy"}
+Conv(l) == CASE l.fmt = "google" /\ l.pos = "field" -> [first |-> 11, at |-> 12]
+             [] l.fmt = "numpy"  /\ l.pos = "field" -> [first |-> 11, at |-> 12]
+             [] l.fmt = "numpy"  /\ l.prob = "param" -> [first |-> Mark(l).first - 3, at |-> Mark(l).at - 3]
+             [] OTHER -> Mark(l)
 \* which line of the text it parses (0-based) the parser attaches to the problem
 \*   epytext : Token.startline of the paragraph / bullet / field, for errors, links and Field.lineno alike
-\*   docutils: system_message['line'] and field.line are the 1-BASED first line of the construct;
-\*             links: docutils.get_lineno = construct line + newlines before the reference = the exact line
-RstFamily(l) == l.fmt \in {"restructuredtext", "google", "numpy"}
-ParserFirst(l) == Mark(l).first + ConvShift(l)
-ParserAt(l)    == Mark(l).at + ConvShift(l)
+\*   docutils: system_message['line'] and field.line are the 1-BASED first line of the block;
+\*             links: docutils.get_lineno = block line + newlines before the reference = the exact line
+ParserFirst(l) == Conv(l).first
+ParserAt(l)    == Conv(l).at
 \* ParseError(descr, linenum) stores linenum and documents it as 0-BASED; .linenum() returns stored + 1
 PE_linenum(stored) == stored + 1
 \* reportErrors: lineno_offset = (err.linenum() or 1) - 1
